@@ -26,6 +26,10 @@ type Label struct {
 	T    *Term
 	T2   *Term
 	Node *Node
+	// Implied: an ordering fact that follows from the tested condition (and
+	// earlier tests on the same path) by trichotomy; matched by queries like a
+	// tested atom, not listed among the conditions of the code
+	Implied bool
 }
 
 func (l Label) String() string {
@@ -192,6 +196,10 @@ func (x *explorer) simplify(t *Term, st map[int]Val, depth int) *Term {
 		if i.Op == "rk" && i.Args[0].Key() == b.Key() {
 			// the element at the current key of a range over the same collection
 			return &Term{Op: "re", Args: []*Term{b}, Pos: t.Pos}
+		}
+		if i.Op == "rk" && i.Args[0].Op == "slice" && len(i.Args[0].Args) == 3 && i.Args[0].Args[1] == nil && i.Args[0].Args[0].Key() == b.Key() {
+			// ... or over a prefix x[:n] of it (same indices)
+			return &Term{Op: "re", Args: []*Term{i.Args[0]}, Pos: t.Pos}
 		}
 		if b.Op == "list" {
 			if k, ok := intConst(i); ok && k >= 0 && int(k) < len(b.Args) {
@@ -954,6 +962,11 @@ func (x *explorer) step(s *PState) []succ {
 				facts["EQ:"+a.EqTerm+"="+a.EqConst] = true
 			}
 			ls := append(append([]Label{}, labels...), Label{Kind: "atom", Key: est.Key, Pol: est.Pol, T: rt, Node: n})
+			var imp []Atom
+			facts, imp = orderFacts(facts, est)
+			for _, ia := range imp {
+				ls = append(ls, Label{Kind: "atom", Key: ia.Key, Pol: ia.Pol, T: rt, Node: n, Implied: true})
+			}
 			out = append(out, succ{n: n.Succ[i], st: st2, facts: facts, labels: ls})
 		}
 		return out
@@ -1055,11 +1068,123 @@ func (pg *PG) AtomSet() []string {
 	for _, s := range pg.States {
 		for _, e := range s.Out {
 			for _, l := range e.Labels {
-				if l.Kind == "atom" {
+				if l.Kind == "atom" && !l.Implied {
 					m[l.String()] = true
 				}
 			}
 		}
 	}
 	return sortedKeys(m)
+}
+
+// splitTop2 splits "a, b" at the top-level separator.
+func splitTop2(s string) (string, string, bool) {
+	depth := 0
+	inStr := false
+	for i := 0; i+1 < len(s); i++ {
+		ch := s[i]
+		if ch == '"' && (i == 0 || s[i-1] != '\\') {
+			inStr = !inStr
+		}
+		if inStr {
+			continue
+		}
+		switch ch {
+		case '(', '[', '{':
+			depth++
+		case ')', ']', '}':
+			depth--
+		case ',':
+			if depth == 0 && s[i+1] == ' ' {
+				return s[:i], s[i+2:], true
+			}
+		}
+	}
+	return "", "", false
+}
+
+func isIntLit(s string) bool {
+	if s == "" {
+		return false
+	}
+	for i, ch := range s {
+		if ch == '-' && i == 0 && len(s) > 1 {
+			continue
+		}
+		if ch < '0' || ch > '9' {
+			return false
+		}
+	}
+	return true
+}
+
+// orderFacts: integer trichotomy along one path. An established Lt/Eq atom
+// over a pair of terms implies the atoms that follow from it together with the
+// negative ordering facts already collected for the same pair:
+//   a<b  =>  !(b<a), a!=b        !(a<b) & !(b<a)  =>  a==b
+//   !(a<b) & a!=b  =>  b<a       a==b  =>  !(a<b), !(b<a)   (only if the pair was compared before)
+func orderFacts(facts map[string]bool, a Atom) (map[string]bool, []Atom) {
+	// three families with the same order laws: integers, time instants, big integers
+	var lt, eq string
+	isLt := false
+	switch {
+	case strings.HasPrefix(a.Key, "Lt("):
+		lt, eq, isLt = "Lt", "Eq", true
+	case strings.HasPrefix(a.Key, "Eq("):
+		lt, eq = "Lt", "Eq"
+	case strings.HasPrefix(a.Key, "TLt("):
+		lt, eq, isLt = "TLt", "TEq", true
+	case strings.HasPrefix(a.Key, "TEq("):
+		lt, eq = "TLt", "TEq"
+	case strings.HasPrefix(a.Key, "BLt("):
+		lt, eq, isLt = "BLt", "BEq", true
+	case strings.HasPrefix(a.Key, "BEq("):
+		lt, eq = "BLt", "BEq"
+	default:
+		return facts, nil
+	}
+	pred := "Eq"
+	if isLt {
+		pred = "Lt"
+	}
+	open := strings.Index(a.Key, "(")
+	x, y, ok := splitTop2(a.Key[open+1 : len(a.Key)-1])
+	if !ok {
+		return facts, nil
+	}
+	eqKey := func() string { p, q := sorted2(x, y); return eq + "(" + p + ", " + q + ")" }
+	var out []Atom
+	add := func(k string) {
+		facts = copyFacts(facts)
+		facts[k] = true
+	}
+	switch {
+	case pred == "Lt" && a.Pol:
+		out = append(out, Atom{Key: lt + "(" + y + ", " + x + ")", Pol: false}, Atom{Key: eqKey(), Pol: false})
+	case pred == "Lt" && !a.Pol:
+		// x >= y
+		if facts[lt+"GE:"+y+"|"+x] {
+			out = append(out, Atom{Key: eqKey(), Pol: true})
+		}
+		p, q := sorted2(x, y)
+		if facts[lt+"NQ:"+p+"|"+q] {
+			out = append(out, Atom{Key: lt + "(" + y + ", " + x + ")", Pol: true})
+		}
+		add(lt + "GE:" + x + "|" + y)
+	case pred == "Eq" && !a.Pol:
+		if facts[lt+"GE:"+x+"|"+y] {
+			out = append(out, Atom{Key: lt + "(" + y + ", " + x + ")", Pol: true})
+		}
+		if facts[lt+"GE:"+y+"|"+x] {
+			out = append(out, Atom{Key: lt + "(" + x + ", " + y + ")", Pol: true})
+		}
+		if lt != "Lt" || isIntLit(x) || isIntLit(y) {
+			add(lt + "NQ:" + x + "|" + y)
+		}
+	case pred == "Eq" && a.Pol:
+		if facts[lt+"GE:"+x+"|"+y] || facts[lt+"GE:"+y+"|"+x] {
+			out = append(out, Atom{Key: lt + "(" + x + ", " + y + ")", Pol: false}, Atom{Key: lt + "(" + y + ", " + x + ")", Pol: false})
+		}
+	}
+	return facts, out
 }
